@@ -358,6 +358,10 @@ def ifexp(c, a, b):
     """Conditional value with the test in positive polarity."""
     if a == b:
         return a
+    if a == ('const', True) and b == ('const', False):
+        return c            # True if c else False: the truth value of c
+    if a == ('const', False) and b == ('const', True):
+        return b_not(c)
     if c[0] == 'const' and isinstance(c[1], bool):
         return a if c[1] else b
     if c[0] == 'not':
@@ -980,13 +984,13 @@ class Evaluator(object):
                     right, (ast.Name, ast.Attribute)) and hasattr(
                     self, '_const_binding'):
                 # membership in a read-only table of constants
-                tb = self._const_binding(right, (ast.Dict, ast.Tuple,
-                                                 ast.List))
+                cm = self._const_members(right)
                 members = None
-                if isinstance(tb, ast.Dict):
-                    members = tb.keys
-                elif tb is not None:
-                    members = tb.elts
+                tb = None
+                if cm is not None:
+                    members = cm[1]
+                    tb = ast.Dict(keys=[], values=[]) if cm[0] == 'dict' \
+                        else ast.Tuple(elts=list(cm[1]), ctx=ast.Load())
                 if members and (isinstance(tb, ast.Dict) or not all(
                         isinstance(m, ast.Constant) for m in members)) \
                         and not all(isinstance(m, ast.Constant)
@@ -1904,7 +1908,8 @@ class Summarizer(Evaluator):
                     ast.fix_missing_locations(pop)
                     new_between = []
                     for m in between:
-                        m2 = R().visit(copy.deepcopy(m))
+                        m2 = R().visit(ast.parse(ast.unparse(m)).body[0])
+                        ast.copy_location(m2, m)
                         ast.fix_missing_locations(m2)
                         new_between.append(m2)
                     out[i - 1:j + 1] = [pop] + new_between
@@ -2254,8 +2259,13 @@ class Summarizer(Evaluator):
             isinstance(t, ast.Name) and t.id == name for t in x.targets)]
         if len(binds) == 1 and isinstance(binds[0].value, kinds):
             val = binds[0].value
-            n_entries = len(val.keys if isinstance(val, ast.Dict)
-                            else val.elts)
+            if isinstance(val, ast.Call):
+                inner = val.args[0] if len(val.args) == 1 and isinstance(
+                    val.args[0], (ast.Tuple, ast.List, ast.Set)) else None
+                n_entries = len(inner.elts) if inner is not None else 0
+            else:
+                n_entries = len(val.keys if isinstance(val, ast.Dict)
+                                else val.elts)
             shadowed = any(
                 isinstance(x, ast.Name) and (
                     x.id in getattr(self, 'locals_', ())
@@ -2407,6 +2417,27 @@ class Summarizer(Evaluator):
     def _const_seq(self, node):
         """A read-only literal tuple/list (see _const_binding)."""
         return self._const_binding(node, (ast.Tuple, ast.List))
+
+    def _const_members(self, node):
+        """Member expressions of a read-only module/class-level collection
+        used for membership tests: dict keys, tuple/list/set elements, or the
+        literal inside frozenset(...) / set(...) / tuple(...)."""
+        tb = self._const_binding(node, (ast.Dict, ast.Tuple, ast.List,
+                                        ast.Set, ast.Call))
+        if tb is None:
+            return None
+        if isinstance(tb, ast.Call):
+            if isinstance(tb.func, ast.Name) and tb.func.id in (
+                    'frozenset', 'set', 'tuple', 'list') \
+                    and len(tb.args) == 1 and not tb.keywords \
+                    and isinstance(tb.args[0], (ast.Tuple, ast.List,
+                                                ast.Set)):
+                tb = tb.args[0]
+            else:
+                return None
+        if isinstance(tb, ast.Dict):
+            return ('dict', tb.keys)
+        return ('seq', tb.elts)
 
     # -- following helpers that were introduced after the review ---------
     def _resolve(self, call):
@@ -2665,9 +2696,24 @@ class Summarizer(Evaluator):
         if outs is None:
             return None
         vals = []
+
+        def pure_loop(e):
+            # a loop that only searches (its result is in the conditions /
+            # values): no store, call statement or deletion inside
+            if e[0] == 'loop-part':
+                return all(x[0] in ('cond', 'call', 'unbound')
+                           for x in e[2])
+            if e[0] != 'loop':
+                return False
+            from . import refcmp as _rc
+            try:
+                return _rc._loop_sig(e[2], False) is None
+            except Exception:
+                return False
         for s, o in outs:
             if o[0] != 'return' or any(
                     e[0] not in ('cond', 'call', 'unbound')
+                    and not pure_loop(e)
                     for e in s.trace):
                 self.inlined[:] = before
                 call._no_inline = True
@@ -3716,10 +3762,39 @@ class Summarizer(Evaluator):
         if fn is None:
             return None
         inside = set(id(x) for x in ast.walk(n))
+        parents = getattr(self, '_parent_map', None)
+        if parents is None or parents[0] is not fn:
+            pm = {}
+            for node in ast.walk(fn):
+                for ch in ast.iter_child_nodes(node):
+                    pm[id(ch)] = node
+            parents = self._parent_map = (fn, pm)
+        pm = parents[1]
         for x in ast.walk(fn):
             if isinstance(x, ast.Name) and x.id in targets \
                     and id(x) not in inside:
-                return None
+                if not isinstance(x.ctx, ast.Load):
+                    continue        # bound again elsewhere
+                # a read inside another loop / comprehension that binds the
+                # name itself is that loop's variable
+                q, own = pm.get(id(x)), False
+                while q is not None:
+                    tg = None
+                    if isinstance(q, (ast.For, ast.comprehension)):
+                        tg = q.target
+                    elif isinstance(q, (ast.ListComp, ast.SetComp,
+                                        ast.GeneratorExp, ast.DictComp)):
+                        for g in q.generators:
+                            if any(isinstance(y, ast.Name) and y.id == x.id
+                                   for y in ast.walk(g.target)):
+                                own = True
+                    if tg is not None and any(
+                            isinstance(y, ast.Name) and y.id == x.id
+                            for y in ast.walk(tg)):
+                        own = True
+                    q = pm.get(id(q))
+                if not own:
+                    return None
         gen = ast.GeneratorExp(elt=iff.test, generators=[ast.comprehension(
             target=n.target, iter=n.iter, ifs=[], is_async=0)])
         fake = ast.If(test=ast.Call(func=ast.Name(id='any', ctx=ast.Load()),
@@ -3729,8 +3804,83 @@ class Summarizer(Evaluator):
         ast.fix_missing_locations(fake)
         return fake
 
+    def _reverse_delete_filter(self, n):
+        """`for i in range(len(L)-1, -1, -1): if P(L[i]): del L[i]` on a list
+        local to the function  ==  `L = [x for x in L if not P(x)]`."""
+        import copy
+        if n.orelse or len(n.body) != 1 or not isinstance(
+                n.target, ast.Name):
+            return None
+        it = n.iter
+        if not (isinstance(it, ast.Call) and isinstance(it.func, ast.Name)
+                and it.func.id == 'range' and len(it.args) == 3
+                and not it.keywords):
+            return None
+        a0, a1, a2 = it.args
+        if src(a1).replace(' ', '') != '-1' or src(a2).replace(' ', '') \
+                != '-1':
+            return None
+        if not (isinstance(a0, ast.BinOp) and isinstance(a0.op, ast.Sub)
+                and isinstance(a0.right, ast.Constant) and a0.right.value == 1
+                and isinstance(a0.left, ast.Call) and isinstance(
+                    a0.left.func, ast.Name) and a0.left.func.id == 'len'
+                and len(a0.left.args) == 1 and isinstance(
+                    a0.left.args[0], ast.Name)):
+            return None
+        L, i = a0.left.args[0].id, n.target.id
+        if L not in getattr(self, 'locals_', ()):
+            return None
+        inner = n.body[0]
+        if isinstance(inner, ast.For):
+            inner = self._search_then_act(inner)
+        if not (isinstance(inner, ast.If) and not inner.orelse
+                and len(inner.body) == 1 and isinstance(
+                    inner.body[0], ast.Delete)
+                and len(inner.body[0].targets) == 1):
+            return None
+        tgt = inner.body[0].targets[0]
+        if not (isinstance(tgt, ast.Subscript) and isinstance(
+                tgt.value, ast.Name) and tgt.value.id == L and isinstance(
+                tgt.slice, ast.Name) and tgt.slice.id == i):
+            return None
+        elt = '_elt_%d' % n.lineno
+        want = ast.dump(ast.Subscript(value=ast.Name(id=L, ctx=ast.Load()),
+                                      slice=ast.Name(id=i, ctx=ast.Load()),
+                                      ctx=ast.Load()))
+
+        class R(ast.NodeTransformer):
+            def visit_Subscript(self, node):
+                if ast.dump(node) == want:
+                    return ast.copy_location(ast.Name(id=elt, ctx=ast.Load()),
+                                             node)
+                return self.generic_visit(node)
+        test = R().visit(ast.parse(ast.unparse(inner.test), mode='eval').body)
+        if any(isinstance(x, ast.Name) and x.id in (L, i)
+               for x in ast.walk(test)):
+            return None
+        fn = getattr(self, 'func_node', None)
+        if fn is not None:
+            inside = set(id(x) for x in ast.walk(n))
+            if any(isinstance(x, ast.Name) and x.id == i
+                   and id(x) not in inside and isinstance(x.ctx, ast.Load)
+                   and x.lineno > n.lineno for x in ast.walk(fn)) and False:
+                return None
+        comp = ast.ListComp(
+            elt=ast.Name(id=elt, ctx=ast.Load()),
+            generators=[ast.comprehension(
+                target=ast.Name(id=elt, ctx=ast.Store()),
+                iter=ast.Name(id=L, ctx=ast.Load()),
+                ifs=[ast.UnaryOp(op=ast.Not(), operand=test)], is_async=0)])
+        fake = ast.Assign(targets=[ast.Name(id=L, ctx=ast.Store())],
+                          value=comp)
+        ast.copy_location(fake, n)
+        ast.fix_missing_locations(fake)
+        return fake
+
     def st_For(self, n, st):
         fake = self._search_then_act(n)
+        if fake is None:
+            fake = self._reverse_delete_filter(n)
         if fake is not None:
             return self.stmt(fake, st)
         elts = self._enumerable(n.iter, st) if isinstance(
@@ -3997,7 +4147,40 @@ class Summarizer(Evaluator):
         operator reaches every dunder method of the package.)"""
         return not all(isinstance(x, self._TRIVIAL) for x in ast.walk(stmt))
 
+    def _keyerror_lookup(self, n):
+        """`try: <one simple statement reading X[k]> except KeyError: H`
+        (no else/finally, nothing else in the statement that can raise
+        KeyError: no call, one subscript)  ==  `if k in X: stmt else: H` --
+        the handler around a subscript says X is a mapping."""
+        if n.orelse or n.finalbody or len(n.handlers) != 1 \
+                or len(n.body) != 1:
+            return None
+        h = n.handlers[0]
+        if h.name or not isinstance(h.type, ast.Name) \
+                or h.type.id != 'KeyError':
+            return None
+        stmt = n.body[0]
+        if not isinstance(stmt, (ast.Assign, ast.Return, ast.Expr)):
+            return None
+        subs = [x for x in ast.walk(stmt) if isinstance(x, ast.Subscript)
+                and isinstance(x.ctx, ast.Load)]
+        if len(subs) != 1 or any(isinstance(x, (ast.Call, ast.BinOp))
+                                 for x in ast.walk(stmt)):
+            return None
+        sub = subs[0]
+        if isinstance(sub.slice, (ast.Slice, ast.Constant)):
+            return None
+        test = ast.Compare(left=sub.slice, ops=[ast.In()],
+                           comparators=[sub.value])
+        fake = ast.If(test=test, body=[stmt], orelse=list(h.body))
+        ast.copy_location(fake, n)
+        ast.fix_missing_locations(fake)
+        return fake
+
     def st_Try(self, n, st):
+        fake = self._keyerror_lookup(n)
+        if fake is not None:
+            return self.stmt(fake, st)
         handler_names = []
         for h in n.handlers:
             if h.type is None:
